@@ -19,6 +19,11 @@ func c13(frames, writes int) {
 	if cause == 1 {
 		e.failWrite = zzvrt.Int("env.failWrite", 1, writes)
 	}
+	if cause == 3 {
+		// the close frame of the deliberate local close can not be written (transport already broken for writing,
+		// or a stale write deadline): still a local close - nothing is reported, everything is released
+		e.failCtl = zzvrt.Bool("env.failCloseFrame")
+	}
 	nIn := zzvrt.Choice("frames.in", frames+1)
 	wdone := 0
 	go func() {
